@@ -124,10 +124,21 @@ GenOK(T, p) ==
     [] T = "AesCmac" -> p.keySize = 32
     [] T = "AesCmacPrf" -> p.keySize = 32
     [] T = "HkdfPrf" -> p.keySize >= 32 /\ p.hash \in {"SHA256", "SHA512"}
+    [] T = "AesGcmHkdfStreaming" -> p.keySize \in {16, 32}                   \* the main key is held to the AES key sizes
+    [] T = "AesCtrHmacStreaming" -> p.keySize \in {16, 32} /\ p.hkdfHash \in {"SHA256", "SHA512"} /\ p.hmacHash \in {"SHA256", "SHA512"}
     [] T \in {"RsaSsaPkcs1", "RsaSsaPss", "JwtRsaSsaPkcs1", "JwtRsaSsaPss"} -> p.exponent = F4
-    [] T = "PrfBasedDeriver" -> p.prf \in {"HKDF_SHA256_32", "HKDF_SHA512_64_SALT"} /\ p.derived \in DeriverDerivable
+    \* (the library has no key deriver for AES-GCM-SIV keys, whatever KeyParams!DeriverDerivable says)
+    [] T = "PrfBasedDeriver" -> p.prf \in {"HKDF_SHA256_32", "HKDF_SHA512_64_SALT"} /\ p.derived \in DeriverDerivable \ {"AES256_GCM_SIV_CRUNCHY"}
     [] OTHER -> TRUE
-NewKeyAccepts(T, p) == ParamsOK(T, p) /\ TemplateRepresentable(T, p) /\ GenOK(T, p)
+\* The record of a format case describes the FORMAT; the parameters it denotes differ for ECIES: the point format field
+\* of an X25519 format must say COMPRESSED (the parameters then say "unspecified"; anything else is refused), and the
+\* output prefix type of the nested DEM template is ignored (the DEM key is always used without prefix).
+Denoted(T, p) ==
+  IF T # "Ecies" THEN p
+  ELSE [p EXCEPT !.pointFormat = IF p.curve = "X25519" THEN (IF @ = "COMPRESSED" THEN Unspecified ELSE Unknown) ELSE @,
+                 !.dem = IF @ = "AES128_GCM_TINK" THEN "AES128_GCM_RAW" ELSE @]
+\* (Representable: a PSS salt length of zero parses as parameters but the generated key cannot be serialized)
+NewKeyAccepts(T, p) == ParamsOK(T, p) /\ TemplateRepresentable(T, p) /\ Representable(T, p) /\ GenOK(T, p)
 
 \* the parameters of a key made from the format of p with output prefix type RAW, resp. with the prefix type of p's
 \* own variant, are p's (the record names them); the PRF-based deriver takes the prefix type from the derived template
@@ -138,6 +149,13 @@ KeyDataOK(T, kind, kd) ==
   /\ kd.material = Material(T, kind)
   /\ kd.parse /\ kd.eqTpl /\ kd.eqTplRev
 
+\* Keys that can be generated, stored and parsed but for which the library has NO primitive (as built; KeyParams!Usable
+\* does not know): ECIES over X25519 ("unsupported curve") and ECIES with an XChaCha20-Poly1305 DEM ("unsupported AEAD DEM
+\* key type" -- ecies.NewParameters allows that DEM, hybrid/internal/ecies.NewDEMHelper does not implement it).
+PrimitiveOK(T, p) ==
+  CASE T = "Ecies" -> p.curve \in Curves3 /\ p.dem # "XCHACHA20_POLY1305_RAW"
+    [] OTHER -> TRUE
+
 \* which accepted records the driver exercises the primitives of (cost: RSA and SLH-DSA key generation and signing are
 \* slow, streaming segments of 2^31 bytes are not allocatable); dense = thorough tier
 Interop(T, p, dense) ==
@@ -147,8 +165,9 @@ Interop(T, p, dense) ==
 \* quick tier: which format cases are kept (RSA key generation above 2049 bits only for one record per modulus size)
 KeepQuick(T, p) ==
   CASE T \in {"RsaSsaPkcs1", "JwtRsaSsaPkcs1", "JwtRsaSsaPss"} ->
-         p.modulusBits <= 2049 \/ ~NewKeyAccepts(T, p) \/ (IF "hash" \in DOMAIN p THEN p.hash = "SHA256" ELSE p.algorithm \in {"RS256", "PS256"})
-    [] T = "RsaSsaPss" -> p.modulusBits <= 2049 \/ ~NewKeyAccepts(T, p) \/ (p.hash = "SHA256" /\ p.saltSize = 32)
+         p.modulusBits <= 2049 \/ ~NewKeyAccepts(T, p)
+         \/ (p.modulusBits = 3072 /\ (IF "hash" \in DOMAIN p THEN p.hash = "SHA256" ELSE p.algorithm \in {"RS256", "PS256"}))
+    [] T = "RsaSsaPss" -> p.modulusBits <= 2049 \/ ~NewKeyAccepts(T, p) \/ (p.modulusBits = 3072 /\ p.hash = "SHA256" /\ p.saltSize = 32)
     [] OTHER -> TRUE
 
 \* ================================================================== Part 3: the key template functions
